@@ -12,7 +12,7 @@ import sys
 
 sys.path.insert(0, os.path.dirname(os.path.abspath(__file__)))
 import refchk  # noqa: E402
-from common import REPO, Outcome, Rng, err_class, hx, run_driver  # noqa: E402
+from common import REPO, Outcome, Rng, err_class, hx, load_spec, run_driver  # noqa: E402
 
 logging.disable(logging.CRITICAL)
 
@@ -349,13 +349,15 @@ def run(prop, tier, seed, layouts_json_path):
     """returns Outcome; prop in {C01, C06, C19}"""
     out = Outcome(prop)
     rng = Rng(seed * 1000003 + {"C01": 1, "C06": 6, "C19": 19}[prop])
+    # inputs are generated from the SPECIFICATION's layouts (independent of the translator and of
+    # the code under test); the real objects are dumped with the names the translator read
+    spec = refchk.layouts_of(load_spec())
     gen = json.load(open(layouts_json_path))
-    layouts = {r["section"].encode(): r["decode"] for r in gen["results"]}
-    # the harness dumps with the names the translator read; normalise its dict layout
-    for nm, l in list(layouts.items()):
-        layouts[nm] = normalise_layout(l)
+    dump_layouts = dict(spec)
+    for r in gen["results"]:
+        dump_layouts[r["section"].encode()] = normalise_layout(r["decode"])
+    layouts = spec
     registered = sorted(layouts.keys())
-    spec = refchk.load_spec(run_driver)
     fx = [open(p, "rb").read() for p in fixtures()]
     scale = 1 if tier == "quick" else 10
 
@@ -382,6 +384,26 @@ def run(prop, tier, seed, layouts_json_path):
         for _ in range(40 * scale):
             data, _ = gen_wellformed(rng, layouts, registered)
             cases.append(("wellformed", data, True))
+        # string tables holding non-7-bit text: valid multi-byte UTF-8, lone high bytes, legacy code pages
+        for nm, w in ((b"STR ", 2), (b"STRx", 4)):
+            fmt = {2: "<H", 4: "<I"}[w]
+            for texts in (
+                ["café au lait"], ["한글 지도", "plain"], ["€uro", "x"], ["naïve", "", "é"], ["\U0001f600"],
+                [b"caf\xe9".decode("latin1")], ["ab", "é"], ["é"],
+            ):
+                for enc in ("utf-8", "latin1", "cp949"):
+                    try:
+                        raw = [t.encode(enc) for t in texts]
+                    except UnicodeEncodeError:
+                        continue
+                    n = len(raw)
+                    base = w + w * n
+                    offs, pos = [], base
+                    for r in raw:
+                        offs.append(pos)
+                        pos += len(r) + 1
+                    p = struct.pack(fmt, n) + b"".join(struct.pack(fmt, o) for o in offs) + b"".join(r + b"\x00" for r in raw)
+                    cases.append(("str-non7bit", nm + struct.pack("<I", len(p)) + p, False))
 
     # regression corpus first
     corpus_path = os.path.join(os.path.dirname(os.path.abspath(__file__)), "..", "corpus", prop + ".jsonl")
@@ -412,7 +434,7 @@ def run(prop, tier, seed, layouts_json_path):
         if model is not None:
             if model[2 * i] != real_line:
                 out.disagreements.append({"op": "rt", "tag": tag, "hex": data.hex(), "model": model[2 * i][:200], "real": real_line[:200]})
-            rd = real_dec_safe(data, layouts)
+            rd = real_dec_safe(data, dump_layouts)
             if model[2 * i + 1] != rd:
                 out.disagreements.append({"op": "dec", "tag": tag, "hex": data.hex(), "model": model[2 * i + 1][:300], "real": rd[:300]})
         # ---- oracles on the real code
@@ -551,7 +573,7 @@ def replay(prop, path, layouts_json_path):
         out.notes.append("replay file carries no input (no-failing-input-found)")
         return out
     data = bytes.fromhex(hexs)
-    spec = refchk.load_spec(run_driver)
+    spec = refchk.layouts_of(load_spec())
     real_line, d, enc = real_rt(data)
     out.case("replay", data, sample={"hex": hexs[:96]})
     if prop == "C01" and (not real_line.startswith("OK ") or enc != data):
